@@ -181,6 +181,25 @@ def sessionRetryA : Nat → Nat → BState → Bytes → List Bytes → Term →
       | 0 => [it]
       | e + 1 => it :: sessionRetryA fuel e σ' buf' cs' t' more'
 
+/-- the same for the blocking connection (each call is `recvS`, with its fixed, doubling buffer) -/
+def recvRetryS (σ : BState) (b : SBuf) (cs : List Bytes) (t : Term) :
+    List ScriptPiece → Item × SBuf × BState × List Bytes × Term × List ScriptPiece
+  | [] => ((recvS σ b cs t).1, (recvS σ b cs t).2.1, (recvS σ b cs t).2.2.2, (recvS σ b cs t).2.2.1, t, [])
+  | p :: more =>
+    match recvS σ b cs t with
+    | (.io _, b', _, σ') => recvRetryS σ' b' p.1 p.2 more
+    | (it, b', cs', σ') => (it, b', σ', cs', t, p :: more)
+
+def sessionRetryS : Nat → Nat → BState → SBuf → List Bytes → Term → List ScriptPiece → List Item
+  | 0, _, _, _, _, _, _ => []
+  | fuel + 1, extra, σ, b, cs, t, more =>
+    match recvRetryS σ b cs t more with
+    | (.resp r, b', σ', cs', t', more') => .resp r :: sessionRetryS fuel extra σ' b' cs' t' more'
+    | (it, b', σ', cs', t', more') =>
+      match extra with
+      | 0 => [it]
+      | e + 1 => it :: sessionRetryS fuel e σ' b' cs' t' more'
+
 /-- the script without the failures: all chunks in order … -/
 def flatScript (cs : List Bytes) (more : List ScriptPiece) : List Bytes := cs ++ more.flatMap (·.1)
 
